@@ -14,11 +14,11 @@
    (c) D15: detach decides on (store, first, last) only, so it accepts a child that spans the whole
    store of its free-standing parent: C19_reuse_refused_refuted (witness), C19_reuse_refused_partial
    (refusal holds for every donor that does not span its store).
-   Missing (hence `_partial`): for slice / extended-slice assignment, __delitem__ and drop_many the
-   paths *after* the first store write (they cannot raise when Layout holds; deriving that needs the
-   Layout-to-span step also missing in C03), and the donors' stores on internal (non-Python) failures
-   of _insert_tokens.  Both are covered by the snapshot monitor on the implementation on every run. *)
-From AB Require Import Prelude PySeq Repeated Fields RepeatedProofs.
+   C19_refused_step closes step-1 slice assignment and __delitem__ under Layout (RepeatedHistory.step_err).
+   Missing (hence `_partial`): extended-slice assignment and drop_many after their first store write, and the
+   donors' stores on internal (non-Python) failures of _insert_tokens.  Both are covered by the snapshot monitor on the implementation on every run. *)
+From AB Require Import Prelude PySeq RepeatedLib Repeated Fields RepeatedProofs RepeatedLayout RepeatedInsert RepeatedCells
+  RepeatedSep RepeatedOps RepeatedSlices RepeatedHistory.
 
 Theorem C19_atomic_optional : forall sd seps s pivot same value fr s' dl e,
   optional_set sd seps s pivot same value fr = (s', dl, Err e) -> s' = s.
@@ -50,6 +50,27 @@ Theorem C19_atomic_setitem_int_partial : forall s index v s' dl e,
                    fst it = tid (hd dft S) /\ snd it = tid (last S dft)) ->
   setitem_int s index v = (s', dl, Err e) -> s' = s /\ dl = [v].
 Proof. exact setitem_int_atomic. Qed.
+
+(* under the layout invariant, with fresh arguments, a refused insert / append / extend / xs[i] = v / xs[a:b] = vs (step 1) / del / pop / clear leaves document and items exactly as they were (for slice assignment and del: the refusal happens before the first store write, every later step is proved to succeed) *)
+Theorem C19_refused_step :
+   forall (ph : Z) (seps sepsb : list (kind * str)),
+       seps_ok seps ->
+       seps_ok sepsb ->
+       forall (s : st) (o : rop) (s' : st) (e : exn),
+       LayS ph s -> op_fresh s o -> run_op ph seps sepsb s o = (s', Err e) -> s' = s.
+Proof. exact step_err. Qed.
+
+(* at every point of any history (partial: histories of the eight step-1 mutators; extended slices / drop_many are not in the op language) *)
+Theorem C19_history_partial :
+   forall (ph : Z) (seps sepsb : list (kind * str)),
+       seps_ok seps ->
+       seps_ok sepsb ->
+       forall (s0 : st) (ops : list rop) (s : st) (o : rop) (s' : st),
+       LayS ph s0 ->
+       Hist ph seps sepsb s0 ops s ->
+       (op_ok s o -> run_op ph seps sepsb s o = (s', Ok tt) -> LayS ph s' /\ FrameS ph seps sepsb s s') /\
+       (forall e : exn, op_fresh s o -> run_op ph seps sepsb s o = (s', Err e) -> s' = s).
+Proof. exact history_step. Qed.
 
 (* an attached donor (one that does not span its store) is refused by every mutator, at every
    position of a batch, with document, items and every donor unchanged *)
